@@ -108,6 +108,18 @@ EXTRA5 = {
  "C19": "; nine kinds of failed transfer, an aborted batch counts as a violation",
  "C20": "; several --year values of which one is a range",
 }
+EXTRA6 = {
+ "C02": "; a tag ending exactly at the window edge; contributor values ending in one character of a several-character marker",
+ "C03": "; .gitmodules that registers no submodule; a wholly ignored directory below LICENSES/",
+ "C07": "; prior 'ignore block directly below the header'",
+ "C08": "; token M (header with CR LF lines pasted into an LF file)",
+ "C11": "; empty --copyright / --contributor",
+ "C13": "; extra tree with dep5 fields in unusual but valid forms",
+ "C14": "; merging notices whose prefixes tie, under every hash seed",
+ "C16": "; wrongly typed REUSE.toml values and dep5 paragraphs that cannot work must be configuration errors naming the file; FILE.license as directory / named pipe",
+ "C18": "; dep5 layout lines and synopsis-less License fields",
+ "C19": "; non-ASCII identifiers; licences already provided under another extension or in a subdirectory",
+}
 EXTRA = {
  "C05": "; CLI plumbing slice: 39 globs x REUSE.toml at ./, d/, d/e/ over a tree with prefix-sharing sibling directories (dd/, d2/, d-e/, d/e2/)",
  "C06": "; eleven trees over the whole bundled SPDX list (used and/or provided x txt, md, no extension, subdirectory, ID+.txt)",
@@ -128,7 +140,7 @@ def main():
     for pid in props:
         if pid in CHECKS and os.path.exists(f"{V}/mc/checks/{pid.lower()}.py"):
             cat, tech, text, note, ref = CHECKS[pid]
-            text += EXTRA.get(pid, "") + EXTRA4.get(pid, "") + EXTRA5.get(pid, "")
+            text += EXTRA.get(pid, "") + EXTRA4.get(pid, "") + EXTRA5.get(pid, "") + EXTRA6.get(pid, "")
             checks.append({
                 "property_id": pid,
                 "quick_cmd": f"/venv/bin/python -m mc.run {pid} --tier quick",
